@@ -98,6 +98,12 @@ func genC09All(t *rt.Tape, r *rt.Run) c09Model {
 		return strings.TrimSpace(genValueText(t, label, true))
 	}
 	v.Name, v.Renamed, v.Req, v.Skip = str("c09.name"), str("c09.renamed"), str("c09.req"), str("c09.skip")
+	if t.Bool(1, 30, "c09.longvalue") {
+		// one physical line longer than 4 KiB (and than other round buffer sizes)
+		unit := "long-" + strings.ReplaceAll(v.Name, "\n", " ") + "word (>= 1:2.0) "
+		v.Name = strings.TrimSpace(strings.Repeat(unit, 1+t.Range(3000, 70000, "c09.longn")/len(unit)))
+		r.Probe("value-longer-than-4096-bytes")
+	}
 	v.N = t.Draw(2001, "c09.n") - 1000
 	if t.Bool(1, 4, "c09.nzero") {
 		v.N = 0
@@ -666,8 +672,86 @@ func c09LocalTypeB(w *simio.Writer, r *rt.Run, a, b, c string) (error, *rt.Task)
 	return c09Marshal(r, &v, w)
 }
 
+// c09Opt has optional fields only: its zero value marshals to nothing at all.
+type c09Opt struct {
+	Name string
+	Tags []string `delim:", "`
+	Ver  version.Version
+}
+
+// c09Sequence: several values through ONE Encoder (or Marshal of a slice), some
+// of them zero values that marshal to nothing; what is read back is exactly the
+// non-empty values, one paragraph each, in order.
+func c09Sequence(r *rt.Run) {
+	t := r.T
+	n := 2 + t.Draw(4, "c09s.n")
+	vals := make([]c09Opt, n)
+	var want []c09Opt
+	for i := range vals {
+		if t.Bool(1, 3, "c09s.zero") {
+			continue
+		}
+		vals[i].Name = fmt.Sprintf("value-%d-%s", i, genFrom(t, lowerAlnum, 0, 6, "c09s.name"))
+		if t.Bool(1, 2, "c09s.tags") {
+			vals[i].Tags = []string{"t" + fmt.Sprint(i), "common"}
+		}
+		want = append(want, vals[i])
+	}
+	asSlice := t.Bool(1, 3, "c09s.slice")
+	w := simio.NewWriter(r, "sink")
+	var err error
+	task := r.Solo("encoder", func() {
+		if asSlice {
+			err = control.Marshal(w, vals)
+			return
+		}
+		enc, e := control.NewEncoder(w)
+		if e != nil {
+			err = e
+			return
+		}
+		for i := range vals {
+			if err = enc.Encode(&vals[i]); err != nil {
+				return
+			}
+		}
+	})
+	if taskTrouble(r, "C09", "Encoder/sequence", task) {
+		return
+	}
+	if err != nil {
+		r.Violate("C09/marshal-error", "sequence", "%v", err)
+		return
+	}
+	r.Probe("sequence-with-values-that-marshal-to-nothing")
+	var back []c09Opt
+	uerr, task := c09Unmarshal(r, &back, w.Buf)
+	if taskTrouble(r, "C09", "Unmarshal/sequence", task) {
+		return
+	}
+	key := "sequence-with-empty-values"
+	if uerr != nil {
+		r.Violate("C09/unmarshal-error", key, "reading back %d values (%d of them empty) written through one Encoder failed: %v\ntext:\n%q", n, n-len(want), uerr, clip(string(w.Buf), 400))
+		return
+	}
+	if len(back) != len(want) {
+		r.Violate("C09/roundtrip-mismatch", key, "%d non-empty values were written (among %d), %d came back\ntext:\n%q", len(want), n, len(back), clip(string(w.Buf), 400))
+		return
+	}
+	for i := range want {
+		if back[i].Name != want[i].Name || !strsEq(back[i].Tags, want[i].Tags) {
+			r.Violate("C09/roundtrip-mismatch", key, "value %d came back as %+v, written %+v\ntext:\n%q", i, back[i], want[i], clip(string(w.Buf), 400))
+			return
+		}
+	}
+}
+
 func c09Misc(r *rt.Run) {
 	t := r.T
+	if t.Bool(1, 3, "c09m.sequence") {
+		c09Sequence(r)
+		return
+	}
 	switch t.Draw(4, "c09m.kind") {
 	case 3: // marshalling one type must not colour how another type of the same name is written
 		order := t.Draw(2, "c09m.order")
@@ -803,5 +887,5 @@ func init() {
 		},
 		Assumptions: []string{"'optional zero fields are omitted' is demanded for fields whose text form is empty when zero (strings, lists, versions, dependencies); the pinned test suite requires false booleans to be written as 'no', and zero integers are written as '0'", "architecture values are restricted to names whose String() form re-parses to the same value (wildcard and three-part names lose information in Arch.String, which belongs to the not-applicable properties C05/C06)"},
 	})
-	propProbes["C09"] = []string{"marshalled-again-after-a-failed-marshal", "same-named-struct-types", "uint-above-int64-range", "marshalled-repeatedly", "list-elements-independent", "several-known-fields-cleared", "required-empty-list", "multi-line-string-field", "paragraph-api", "missing-required-field", "unknown-fields-present", "known-field-cleared", "nested-plain-struct", "pointer-fields"}
+	propProbes["C09"] = []string{"sequence-with-values-that-marshal-to-nothing", "value-longer-than-4096-bytes", "marshalled-again-after-a-failed-marshal", "same-named-struct-types", "uint-above-int64-range", "marshalled-repeatedly", "list-elements-independent", "several-known-fields-cleared", "required-empty-list", "multi-line-string-field", "paragraph-api", "missing-required-field", "unknown-fields-present", "known-field-cleared", "nested-plain-struct", "pointer-fields"}
 }
